@@ -1110,7 +1110,8 @@ def build_unit(repo, unit, spec, prelude_texts, probe=False):
         out += "\n" + post + "\n"
         item_last = out.count("\n")
         ex.linemap.append((item_first, item_last, name, "body"))
-        if probe and not it.get("block") and not pre and name in spec.fn:
+        inherent = bool(pre) and pre.lstrip().startswith("impl ") and " for " not in pre.split("{")[0]
+        if probe and not it.get("block") and (not pre or inherent) and name in spec.fn:
             # reachability twin: same signature, same requires, `ensures false` -- must be refuted
             tw = "".join(t.text for t in sp)
             tw = re.sub(r"\bfn\s+%s\b" % re.escape(it["fn"] if "rename_fn" not in str(rules) else name), "fn %s__probe" % name, tw, count=1)
@@ -1124,7 +1125,7 @@ def build_unit(repo, unit, spec, prelude_texts, probe=False):
                     c2 = (c[:dm.start()] + " ensures false,\n" + c[dm.start():]) if dm else (c.rstrip().rstrip(",") + ",\n ensures false,\n")
                 tw = tw[:m.start(1)] + c2 + tw[m.end(1):]
                 first = out.count("\n") + 1
-                out += "// ---- reachability probe for %s\n" % name + tw + "\n"
+                out += "// ---- reachability probe for %s\n" % name + pre + tw + "\n" + post + "\n"
                 ex.linemap.append((first, out.count("\n"), name + "__probe", "body"))
                 ex.probes.append(name)
         for k, v in counts.items():
